@@ -173,7 +173,7 @@ func (buf buffer) codeForUnion(typ *an.Union) (gen.Declaration, []string) {
 	// recurse
 	for _, member := range typ.Members {
 		imp := buf.generate(member, buf.linker.GetOutput(typ.Type()))
-		importMembers = append(importMembers, imp)
+		importMembers = append(importMembers, imp, buf.helperImport(member))
 	}
 
 	name := typeName(typ)
@@ -202,7 +202,7 @@ func (buf buffer) codeForStruct(typ *an.Struct) (gen.Declaration, []string) {
 		} else {
 			// recurse
 			importField := buf.generate(field.Type, buf.linker.GetOutput(typ.Name))
-			importForFields = append(importForFields, importField)
+			importForFields = append(importForFields, importField, buf.helperImport(field.Type))
 
 			tn = typeName(field.Type)
 		}
